@@ -73,7 +73,7 @@ def run(chk):
     cases.append({'kind': kind, 'vars': vars_, 'nin': nin, 'poly': gen_poly(rng, nv + nin), 'bumps': bumps, 'xs': [rng.randint(-3, 3) for _ in range(nin)], 'ct': rng.randint(-3, 4),
                   'tvars': tangents(rng, vars_), 'tins': [rng.randint(-2, 3) for _ in range(nin)],
                   'filter': gen_filter(rng), 'has_aux': kind in ('vjp', 'grad', 'value_and_grad') and rng.random() < 0.3,
-                  'seq': [rng.choice(['direct', 'diff']) for _ in range(rng.randint(2, 4))]})
+                  'seq': [rng.choice(['direct', 'diff']) for _ in range(rng.randint(2, 4))], 'hdepth': rng.choice([1, 2, 3])})
   W = 12
   results = common.run_impl_parallel('impl_c07.py', [{'cases': cases[i::W]} for i in range(W)], workers=W, timeout=3000)
   obs = [None] * len(cases)
@@ -141,6 +141,16 @@ def run(chk):
       row = '(%s && (let \'(ys, vs) := hist %s %s in list_beq Z.eqb vs %s && ys_match ys %s))' % (
           row, cnat(len(d['seq'])), D, clist([cZ(int(z)) for z in hi['ok']['vars_after']]), clist([copt(cZ(int(y)) if y is not None else None) for y in hi['ok']['ys']]))
     rows.append((d, o, row))
+  # lift.vjp over several scopes at different depths (core API): per-scope cotangents
+  ms = [{'depths': [rng.randint(1, 3) for _ in range(n_)], 'vals': [rng.randint(-3, 3) for _ in range(n_)], 'x': rng.randint(1, 3), 'ct': rng.randint(1, 3), 'as_tuple': rng.random() < 0.5}
+        for n_ in [2, 2, 3, 3] * (4 if thorough else 1)]
+  for c, o in zip(ms, common.run_impl('impl_c07.py', {'multi_scope': ms}, timeout=900)['multi_scope']):
+    chk.count({'multi_scope_vjp': c}, len(set(c['depths'])) > 1)
+    if 'err' in o:
+      chk.violation('oracle', 'lift.vjp over several scopes raised: %s' % o['err'], {'case': c, 'tb': o.get('tb')})
+    elif not (o['ok']['y'] and o['ok']['x_grad'] and o['ok']['scope_grads']):
+      chk.violation('oracle', 'lift.vjp over several scopes at depths %s: the primal, the input cotangent or the cotangent returned for a scope is not that of the pure function (a scope received '
+                    'the cotangent of another scope\'s parameter)' % c['depths'], {'case': c, 'observed': o['ok']})
   chk.sample({'case': cases[0], 'observed': obs[0].get('ok', {}).get('impl')})
   hdr = HEADER + '''Definition chk (b : bool) : bool := b.
 Fixpoint ys_match (ys : list Z) (es : list (option Z)) : bool :=
